@@ -7,7 +7,8 @@ LEAN_MODULE = ["Urandom.Props.C19", "Urandom.Props.C03T", "Urandom.Props.C19R"]
 RULE = ("requests: for SplitMix64, Xoshiro256, Wyrand and ChaCha8/12/20: a random history before the save point (odd buffer offsets, after jumps and large fills, freshly seeded, "
         "injected buffer positions incl. all-zero buffers and out-of-range indices), serialise, restore, the same random continuation on original and restored, re-serialise both; "
         "JSON text, all outputs and both final texts are compared with the model; oracle: restored outputs == original outputs and identical final texts. "
-        "extra: every serialisable distribution with finite parameters round-trips to identical text and bit-identical samples. non-trivial = all; distinct = distinct request line")
+        "extra: every serialisable distribution with finite parameters round-trips to identical text and bit-identical samples. non-trivial = all; distinct = distinct request line"
+        " Since round 10: a save / restore / continue history of a seeded generator that panics is a failing input.")
 ASSUMPTIONS = ["serde's derive semantics and serde_json (with float_roundtrip) are trusted; the theorem is about the attribute logic (skip/default rules)"]
 
 
